@@ -265,7 +265,9 @@ def _menu_events(L, menu):
     # byteswap (meaningful only when there are whole bytes; always offered on byte roots)
     if byt or (full and L >= 8) or (menu == 'reduced' and L >= 8):
         fmts = [(None, 'None'), (0, '0'), (1, '1'), (2, '2'), ([1, 2], '[1, 2]'), ([2, 0, 1], '[2, 0, 1]'), ('h', "'h'"), ('>2h', "'>2h'"),
-                ('bh', "'bh'"), (-1, '-1'), ('x', "'x'"), ([1, -1], '[1, -1]'), (3, '3'), ((1, 1), '(1, 1)')]
+                ('bh', "'bh'"), (-1, '-1'), ('x', "'x'"), ([1, -1], '[1, -1]'), (3, '3'), ((1, 1), '(1, 1)'),
+                # one-shot iterables are iterables of integers too
+                ((1, 2, 'gen'), '(n for n in [1, 2])'), ((2, 'iter'), 'iter([2])'), ((1, 1, 'range'), 'range(1, 2)')]
         bw = [(None, None), (8, None), (0, 16), (1, None), (None, -1), (8, 8), (0, L + 1), (1, 17), (8, 24)]
         if menu == 'reduced':
             fmts, bw = fmts[:4], bw[:3]
@@ -332,7 +334,9 @@ def model_step(st, ev):
     if op == 'invert':
         return M.invert(st, (a[1], a[2]))
     if op == 'byteswap':
-        f = list(a[0]) if isinstance(a[0], tuple) else a[0]
+        f = [x for x in a[0] if not isinstance(x, str)] if isinstance(a[0], tuple) else a[0]
+        if isinstance(a[0], tuple) and a[0] and a[0][-1] == 'range':
+            f = [1]
         return M.byteswap(st, f, a[1], a[2], a[3])
     if op in ('ilshift', 'irshift'):
         return _self(M.ishift(st, a[0], op == 'ilshift'))
